@@ -126,19 +126,14 @@ func yamlTranslateNode(node *yaml.Node) (any, error) {
 			return strconv.ParseBool(node.Value)
 
 		case "!!int":
-			v, err := strconv.ParseInt(node.Value, 10, 32)
-			if err == nil {
-				return int(v), nil
+			v, err := strconv.ParseInt(node.Value, 10, 64)
+			if err != nil {
+				return nil, err
 			}
 
-			return strconv.ParseInt(node.Value, 10, 64)
+			return int(v), nil
 
 		case "!!float":
-			v, err := strconv.ParseFloat(node.Value, 32)
-			if err == nil {
-				return v, nil
-			}
-
 			return strconv.ParseFloat(node.Value, 64)
 
 		case "!!null":
